@@ -59,7 +59,69 @@ def run_c10(ctx, chk):
         all('Range<u32>' in r[2] and 'Rev' not in r[2] for r in ranges)
     chk.instance('R-RENDER', short(disp), 'rows 0..lines and columns 0..columns in ascending order', ok, detail='loops: %s' % ranges, span=body.span,
                  what='display() does not iterate rows 0..lines / columns 0..columns in order: %s' % ranges)
+    # D3b: no state is carried from the rendering of one row to the next (only the result vector and
+    # the row iterator are loop-carried in the row loop)
+    carried = loop_carried(prog, disp, ('0', 'lines'), ctx, sr)
+    bad = [c for c in carried if not (c[1] == 'std::vec::Vec<std::string::String>' or 'Range<u32>' in c[1])]
+    chk.instance('R-RENDER', short(disp), 'each row is rendered independently of the others', carried is not None and not bad,
+                 detail='loop-carried mutable locals of the row loop: %s' % (carried,), span=body.span,
+                 what='state other than the result vector survives from one row to the next while rendering: %s' % [(b[0], b[1]) for b in bad])
     chk.trust('may-write analysis E3 (mtsa/effects.py)', 'collection summaries')
+
+
+def loop_carried(prog, func, want_range, ctx, sr):
+    """locals defined outside the loop over `want_range` in `func` that are assigned or mutably
+    borrowed inside it: list of (name, type)"""
+    from .rules_c09 import loop_range
+    body = prog.bodies[func]
+    loops, back, idom, preds = body.loops()
+    for h, blocks in loops.items():
+        ht = body.blocks[h]['term']
+        if not (ht['k'] == 'call' and ((ht['func'].get('fn') or {}).get('path', '')).endswith('::next')):
+            continue
+        if loop_range(ctx, sr['engine'], func, h) != want_range:
+            continue
+        inside_def = set()
+        mutated = set()
+        for b in blocks:
+            bb = body.blocks[b]
+            for s in bb['stmts']:
+                if s['k'] == 'assign':
+                    pl = s['place']
+                    if not pl['proj']:
+                        inside_def.add(pl['local'])
+                    elif not any(e['k'] == 'deref' for e in pl['proj']):
+                        mutated.add(pl['local'])
+                    rv = s['rv']
+                    if rv['k'] in ('ref', 'rawptr') and rv.get('mut') and not any(e['k'] == 'deref' for e in rv['place']['proj']):
+                        mutated.add(rv['place']['local'])
+            t = bb['term']
+            if t['k'] == 'call' and not t['dest']['proj']:
+                inside_def.add(t['dest']['local'])
+        # defined outside = has an assignment in a block outside the loop (or is an argument)
+        outside_def = set(range(1, body.arg_count + 1))
+        for bi, bb in enumerate(body.blocks):
+            if bi in blocks or bb['cleanup']:
+                continue
+            for s in bb['stmts']:
+                if s['k'] == 'assign' and not s['place']['proj']:
+                    outside_def.add(s['place']['local'])
+            t = bb['term']
+            if t['k'] == 'call' and not t['dest']['proj']:
+                outside_def.add(t['dest']['local'])
+        out = []
+        for l in sorted((mutated | (inside_def & outside_def)) & outside_def):
+            ty = body.locals[l]['ty']
+            if ty == '()' or ty.startswith('&') and 'mut' not in ty:
+                continue
+            # closures: only those with a mutable environment carry state
+            if 'closure@' in ty:
+                cl = [c for c in prog.closures_of.get(func, []) if prog.bodies[c].locals[1]['ty'].startswith('&mut')]
+                if not cl:
+                    continue
+            out.append((body.local_name(l), ty))
+        return out
+    return None
 
 
 # ===========================================================================
